@@ -17,6 +17,12 @@ CHECKS = {
  'C03': ('bounded-exhaustive enumeration of sample classes x 25 configurations of the two limit variables on the real MannWhitneyUTest; all permutations; monotone maps; swap law; error cases; normal-branch formula oracle',
          'Every class with n1+n2<=8 (thorough 10) under all 25 limit configurations (same data through exact and normal method), every permutation for n1+n2<=6 (8), six increasing maps, swap law, argument snapshots including spare capacity, every error combination, and a complete size family to 600x600.',
          'normal-branch oracle: exact rational variance + math.Erfc (the normal CDF itself is C05\'s subject); range slack 1e-12', '4/C03'),
+ 'C06': ('bounded-exhaustive enumeration of every (N,K,Draws) / (N,P) and every k against exact big.Rat / 600-bit references',
+         'Every hypergeometric (N,K,Draws) with N<=40 (thorough 80), every binomial N<=60 (100) on 108 values of P and the complete family N in {100,250,500,999,1000}, at every integer and half-integer k from below to above the support.',
+         'tolerance 1e-10; binomial reference in 600-bit big.Float on the exact value of the float P, cross-checked against big.Rat for N<=12', '4/C06'),
+ 'C08': ('bounded-exhaustive lattice enumeration (truly exhaustive for Choose/Lchoose n<=1000) against closed-form 640-bit references and gonum/mathext',
+         'BetaInc on a 23x23 (thorough 32x32) parameter lattice x ~82 arguments including both sides of the branch switch-over, GammaInc/GammaIncComp on 13 (23) values of a x ~92 arguments including x=a+1 +-2 ulp, all 503k (n,k) pairs for Choose/Lchoose, Beta on the lattice, Sign on 11 values.',
+         'gonum/mathext (cephes lineage) is the oracle for non-integer parameters; its agreement with the closed forms is measured on every integer point of the lattice', '4/C08'),
 # --- end of table ---
 }
 NOT_BUILT = 'check not built yet (work in progress; no claim made)'
